@@ -7,14 +7,16 @@ COQ_MODULE = "Own.Model"; RUN_FN = "run"
 THEOREMS = ["C20_freed_at_most_once", "C20_no_release_after_free", "C20_release_terminates",
             "C20_all_freed_after_root_release", "C20_user_objects_freed_exactly_once",
             "C20_checker_sound", "C20_supported_set_never_freed", "C20_primitives_preserve_wf",
-            "C20_reachable_graphs_wf", "C20_every_simulation_releases_everything", "C20_model_output_all_freed"]
+            "C20_reachable_graphs_wf", "C20_every_simulation_releases_everything", "C20_model_output_all_freed",
+            "C20_drop_path_irrelevant"]
 QUICK_N = 2500; THOROUGH_N = 120000
 XCHECK_N = 30
 RULE = ("scripts = (module tree with nested children, 0..3 gates per module, gate links with/without a queueing channel forming chains, "
         "module-level cycles and closed gate rings, per module: sends at every (re)start, self messages, tasks sleeping on timers or blocked on a "
         "receive, processing elements, a shutdown / shutdown+restart / panic trigger, a send from at_sim_end; injected messages; stopping point "
         "= never frozen into a runtime | runtime never started | max_itr(k) | max_time(t) | run to completion | started, k events, abandoned "
-        "without finish; order in which Sim / remaining events / caller-held GateRefs+ModuleRefs are dropped); every simulation is executed twice "
+        "without finish; order in which Sim / remaining events / caller-held GateRefs+ModuleRefs are dropped, normally or by a panic unwinding "
+        "through their owner); every simulation is executed twice "
         "in the same process; non-trivial = distinct script that reaches >= 3 targeted mechanisms")
 TRUSTED = ["Arc/Rc/Weak counting, Box/Vec drop glue and tokio's task ownership are not modelled: the model's edge schema (coq/Own/Shape.v) is what is "
            "validated, on every run, by the destructor counters of the real crate (per class: created, dropped exactly once, dropped otherwise, alive)",
@@ -86,7 +88,7 @@ def encode(d):
 def decode(s):
     it = iter(list(s) + [0] * 400)
     nx = lambda: next(it)
-    d = {"stop": nx() % 6, "arg": nx(), "order": nx() % 2, "hold": nx() % 2, "mods": [], "links": [], "injs": []}
+    d = {"stop": nx() % 6, "arg": nx(), "order": nx() % 4, "hold": nx() % 2, "mods": [], "links": [], "injs": []}
     n = min(nx(), 6)
     for _ in range(n):
         m = {"parent": nx(), "npe": min(nx(), 2), "nsend": min(nx(), 8)}
@@ -168,7 +170,8 @@ def gen_script(rng):
         arg = rng.choice([0, 1, 2, 3, 4, 5, 6, 8, 10, 13, 17, 25, 40])
     if stop == 3:
         arg = rng.choice(TIMES)
-    return encode({"stop": stop, "arg": arg, "order": rng.randint(0, 1), "hold": rng.randint(0, 1),
+    order = rng.randint(0, 1) + (2 if rng.random() < 0.25 else 0)      # bit 1: dropped by unwinding
+    return encode({"stop": stop, "arg": arg, "order": order, "hold": rng.randint(0, 1),
                    "mods": mods, "links": links[:12], "injs": injs})
 
 
@@ -208,6 +211,10 @@ def exhaustive():
             base = dict(sim, order=order, hold=hold)
             for stop in (0, 1, 4):
                 yield encode(dict(base, stop=stop, arg=0))
+                yield encode(dict(base, stop=stop, arg=0, order=order + 2))      # ... dropped by unwinding
+            for k in range(0, 45, 4):
+                yield encode(dict(base, stop=2, arg=k, order=order + 2))
+                yield encode(dict(base, stop=5, arg=k, order=order + 2))
             for k in range(0, 45):
                 yield encode(dict(base, stop=2, arg=k))
                 yield encode(dict(base, stop=5, arg=k))
@@ -298,8 +305,10 @@ def mechanisms(script, out):
         ms.add("closed_gate_ring")
     if d["hold"]:
         ms.add("caller_keeps_refs")
-    if d["order"]:
+    if d["order"] % 2:
         ms.add("profiler_dropped_first")
+    if d["order"] // 2:
+        ms.add("dropped_by_unwinding")
     if stop >= 2:
         if any(0 in m["tasks"] for m in d["mods"]):
             ms.add("task_blocked_on_receive")
@@ -352,8 +361,10 @@ def mechanisms(script, out):
         ms.add("messages_in_flight_at_drop")
     if "channel" in ms and stop in (2, 3, 5) and r["created"][3] - handled >= 3 and r["nrem"] > 0:
         ms.add("channel_backlog_at_stop")
-    if any(m["endsend"] for m in d["mods"]) and r["res"] in (1, 2):
+    if any(m["endsend"] and (m["trig"] // 4) % 6 == 0 for m in d["mods"]) and r["res"] in (1, 2):
         ms.add("static_event_buffer_at_drop")
+        if d["order"] // 2:
+            ms.add("dropped_by_unwinding_with_buffered_sim_end_sends")
     return ms
 
 
@@ -365,7 +376,8 @@ def pretty(script):
     d = decode(script)
     stop = ["built+frozen+dropped", "runtime built, never run", "max_itr(%d)" % d["arg"], "max_time(%dns)" % d["arg"],
             "run to completion", "start+dispatch_n_events(%d), abandoned" % d["arg"]][d["stop"]]
-    s = "stop=%s order=%s hold=%d; " % (stop, "profiler,sim" if d["order"] else "sim,profiler", d["hold"])
+    s = "stop=%s order=%s%s hold=%d; " % (stop, "profiler,sim" if d["order"] % 2 else "sim,profiler",
+                                          " DROPPED BY UNWINDING" if d["order"] // 2 else "", d["hold"])
     for i, m in enumerate(d["mods"]):
         s += "m%d(parent=%s pe=%d send=%d self=%s tasks=%s trig=%s gates=%d%s) " % (
             i, "m%d" % (m["parent"] - 1) if m["parent"] and m["parent"] - 1 < i else "-", m["npe"], m["nsend"], m["selfd"], m["tasks"],
